@@ -9,6 +9,8 @@ use serde_json::{json, Value};
 use std::io::{BufRead, Write};
 use ttl_cache::TtlCache;
 
+static DEFAULT_DB: std::sync::OnceLock<huginn_net_db::Database> = std::sync::OnceLock::new();
+
 fn hdrs(h: &[huginn_net_http::http_common::HttpHeader]) -> Value {
     Value::Array(h.iter().map(|x| json!({"name": x.name, "value": x.value})).collect())
 }
@@ -61,6 +63,31 @@ pub fn run(input: &mut dyn BufRead, out: &mut dyn Write, _args: &[String]) -> R 
                     })
                     .collect();
                 json!({"id": id, "out": res})
+            }
+            "match" => {
+                // parse one message and look it up in the bundled database through the crate's SignatureMatcher
+                let db = DEFAULT_DB.get_or_init(|| huginn_net_db::Database::load_default().expect("bundled database"));
+                let matcher = huginn_net_http::SignatureMatcher::new(db);
+                let p = HttpProcessors::new();
+                let b = blob(&v["data"]);
+                let is_req = v["kind"].as_str().unwrap() == "req";
+                match guarded(|| {
+                    if is_req {
+                        p.parse_request(&b).map(|r| {
+                            let m = matcher.matching_by_http_request(&r);
+                            json!({"text": r.matching.to_string(), "label": m.map(|(l, _, _)| label_to(l)), "q": m.map(|(_, _, q)| (q * 100.0).round() as i64)})
+                        })
+                    } else {
+                        p.parse_response(&b).map(|r| {
+                            let m = matcher.matching_by_http_response(&r);
+                            json!({"text": r.matching.to_string(), "label": m.map(|(l, _, _)| label_to(l)), "q": m.map(|(_, _, q)| (q * 100.0).round() as i64)})
+                        })
+                    }
+                }) {
+                    Ok(Some(x)) => json!({"id": id, "r": "some", "v": x}),
+                    Ok(None) => json!({"id": id, "r": "none"}),
+                    Err(e) => json!({"id": id, "r": "panic", "e": e}),
+                }
             }
             "akamai" => {
                 // one-shot extraction over `bytes`, then incremental extraction over each partition in `parts` (lists of chunk lengths)
